@@ -458,8 +458,39 @@ def check(run: Run) -> None:
                                 f"record the modification: {fl.path_text(w)}", loc=fl.cfg.describe(w[-1][0]))
         run.sites(n_reg, 3, "dynamic-list child registrations")
 
+    with run.obligation("C05.m", "K1", "decision table of TSDSlotStorage::record_child_modified (a child of the dictionary reports a modification): nothing happens for a slot that is "
+                        "not a CURRENT member (slot_live - a key erased earlier in the cycle keeps its slot occupied and its child writable through a retained handle; its late "
+                        "notification must not cancel the recorded removal); a member that lost its value is un-published and reported removed (or its add cancelled); a "
+                        "member that gained its first value is published and reported added (or its removal cancelled); every member with a value is marked modified"):
+        fa = R.fn(run, SLOT, "record_child_modified", cls="TSDSlotStorage")
+        roles = [Role("T", "t", r"modified_time"), Role("MIN_DT", "t", r"MIN_DT", sentinel="min"), Role("LIVE", "bool", r"slot_live\(slot\)"),
+                 Role("HASV", "bool", r"child_has_current_value\(slot\)", required=False), Role("PUB", "bool", r"slot_value_published\(slot\)", required=False),
+                 Role("ADDED", "bool", r"slot_added\(slot\)", required=False), Role("REMOVED", "bool", r"slot_removed\(slot\)", required=False)]
+
+        def spec_rcm(v):
+            if v.eq("T", "MIN_DT"):
+                return Expect(throws=True, calls=[])
+            if not v.b("LIVE"):
+                return Expect(calls=[])
+            calls = [("PREPARE", ("T",))]
+            if not v.b("HASV"):
+                calls.append(("MOD_RESET", (ANY,)))
+                if v.b("PUB"):
+                    calls.append(("UNPUBLISH", (ANY,)))
+                    calls.append(("ADD_RESET", (ANY,)) if v.b("ADDED") else ("REM_SET", (ANY,)))
+                return Expect(calls=calls)
+            if not v.b("PUB"):
+                calls.append(("PUBLISH", (ANY,)))
+                calls.append(("REM_RESET", (ANY,)) if v.b("REMOVED") else ("ADD_SET", (ANY,)))
+            calls.append(("MOD_SET", (ANY,)))
+            return Expect(calls=calls)
+        R.k1(run, "C05.m", fa, roles, spec_rcm, role_calls={"PREPARE": r"prepare_delta", "MOD_RESET": r"modified_\.reset", "MOD_SET": r"modified_\.set", "UNPUBLISH": r"value_published_\.reset",
+                                                           "PUBLISH": r"value_published_\.set", "ADD_RESET": r"added_\.reset", "ADD_SET": r"added_\.set", "REM_SET": r"removed_\.set",
+                                                           "REM_RESET": r"removed_\.reset"}, what="TSDSlotStorage::record_child_modified")
+
 
 VARIANTS = [
+    {"id": "m-seed-C05-8-child-notification-of-occupied-slot", "expect": "C05.m", "edits": [{"file": SLOT, "find": "                if (!slot_live(slot)) { return; }\n                prepare_delta(modified_time);\n\n                if (!child_has_current_value(slot))", "replace": "                if (!slot_occupied(slot)) { return; }\n                prepare_delta(modified_time);\n\n                if (!child_has_current_value(slot))"}]},
     {"id": "l-seed-C05-5-move-scan-occupied", "expect": "C05.l", "edits": [{"file": "src/hgraph/types/time_series/ts_data/dict_view.cpp", "find": "            if (!slot_live(slot)) { continue; }\n            auto key = key_at_slot(slot);\n            if (!source_map.contains(key)) { removals.push_back(slot); }", "replace": "            if (!slot_occupied(slot)) { continue; }\n            auto key = key_at_slot(slot);\n            if (!source_map.contains(key)) { removals.push_back(slot); }"}]},
     {"id": "k-set-insert-always-adds", "expect": "C05.k", "edits": [{"file": SLOT, "find": "                if (slot_removed(result.slot)) { removed_.reset(result.slot); }\n                else { added_.set(result.slot); }\n                return mutation_result(result.slot, result.constructed);\n            }\n\n            [[nodiscard]] SlotTSDataMutationResult insert_key_move", "replace": "                if (slot_removed(result.slot)) { removed_.reset(result.slot); }\n                added_.set(result.slot);\n                return mutation_result(result.slot, result.constructed);\n            }\n\n            [[nodiscard]] SlotTSDataMutationResult insert_key_move"}]},
     {"id": "k-dict-new-key-added-before-value", "expect": "C05.k", "edits": [{"file": SLOT, "find": "                else if (child_valid(result.slot))\n                {\n                    value_published_.set(result.slot);\n                    added_.set(result.slot);\n                }\n                (void)key_set_tracking_.record_modified(modified_time);\n                return mutation_result(result.slot, result.constructed);\n            }\n\n            [[nodiscard]] SlotTSDataMutationResult remove_key", "replace": "                else\n                {\n                    value_published_.set(result.slot);\n                    added_.set(result.slot);\n                }\n                (void)key_set_tracking_.record_modified(modified_time);\n                return mutation_result(result.slot, result.constructed);\n            }\n\n            [[nodiscard]] SlotTSDataMutationResult remove_key"}]},
